@@ -6,6 +6,7 @@ value (`repr` / literal parsing) is CPython's and C02's.
 -/
 import Gin.Props.C06d
 import Gin.Lemmas.Flatten
+import Gin.Props.C11
 
 namespace Gin.C06
 open Gin Gin.AList Gin.SelMap Gin.C08
@@ -282,37 +283,149 @@ theorem parse_roundtrip (st : State) (hinv : Inv st.registry) (hl : st.locked = 
   rw [hc]
   exact hcfg key p
 
-/-- … for every configuration reachable by binding (the text-level side conditions stated on the reached store). -/
+mutual
+  theorem readable_congr {s t : State} (hr : s.registry = t.registry) (hc : s.constants = t.constants) :
+      ∀ (v : Val), Readable s v → Readable t v
+    | .list xs, h => by simp only [Readable] at h ⊢; exact readableL_congr hr hc xs h
+    | .tuple xs, h => by simp only [Readable] at h ⊢; exact readableL_congr hr hc xs h
+    | .dict kvs, h => by simp only [Readable] at h ⊢; exact readableD_congr hr hc kvs h
+    | .ref _ _ _, h => by simp only [Readable] at h ⊢; rw [← hr]; exact h
+    | .macro _, h => by simp only [Readable] at h ⊢; rw [← hc]; exact h
+    | .const _, h => by simp only [Readable] at h ⊢; rw [← hc]; exact h
+    | .none, _ => by simp [Readable]
+    | .bool _, _ => by simp [Readable]
+    | .int _, _ => by simp [Readable]
+    | .float _ _, _ => by simp [Readable]
+    | .complex _, _ => by simp [Readable]
+    | .str _, _ => by simp [Readable]
+    | .bytes _, _ => by simp [Readable]
+    | .set _, _ => by simp [Readable]
+    | .unknownRef _ _, _ => by simp [Readable]
+    | .obj _, _ => by simp [Readable]
+    | .required, _ => by simp [Readable]
+    | .fn _ _, _ => by simp [Readable]
+    | .result _ _, _ => by simp [Readable]
+  theorem readableL_congr {s t : State} (hr : s.registry = t.registry) (hc : s.constants = t.constants) :
+      ∀ (xs : List Val), ReadableL s xs → ReadableL t xs
+    | [], _ => by simp [ReadableL]
+    | x :: xs, h => by
+      simp only [ReadableL] at h ⊢
+      exact ⟨readable_congr hr hc x h.1, readableL_congr hr hc xs h.2⟩
+  theorem readableD_congr {s t : State} (hr : s.registry = t.registry) (hc : s.constants = t.constants) :
+      ∀ (kvs : List (Val × Val)), ReadableD s kvs → ReadableD t kvs
+    | [], _ => by simp [ReadableD]
+    | (k, v) :: rest, h => by
+      simp only [ReadableD] at h ⊢
+      exact ⟨readable_congr hr hc k h.1, readable_congr hr hc v h.2.1, readableD_congr hr hc rest h.2.2⟩
+end
+
+theorem textOK_empty (st : State) : TextOK st [] where
+  macroNamed := by intro kv h; cases h
+  paramNamed := by intro kv h; cases h
+  readable := by intro kv h; cases h
+
+/-- what is asked of a binding for the text to read back: a named parameter, a named macro, a value that reads
+    back as itself if it is printed at all -/
+def BindOK (st : State) (k : Key) (v : Val) : Prop :=
+  k.arg ≠ "" ∧ k.scope ≠ [] ∧ (v.representable = true → Readable st v)
+
+/-- a successful `bind` of such a pair keeps the text-level side conditions -/
+theorem textOK_bind (st st' : State) (ht : TextOK st st.config) (k : Key) (v : Val)
+    (hb : st.bind k v = .ok st') (hk : k.arg ≠ "") (hsc : k.scope ≠ [])
+    (hv : v.representable = true → Readable st v) : TextOK st' st'.config := by
+  have hreg := (bind_registry_eq st st' k v none hb).1
+  have hcon := (bind_registry_eq st st' k v none hb).2
+  have hl : st.locked = false := by
+    cases h : st.locked with
+    | false => rfl
+    | true => simp [State.bind, h] at hb
+  cases hpk : st.parseKey k with
+  | error e => simp [State.bind, hl, hpk] at hb
+  | ok r =>
+    obtain ⟨scope, full, arg⟩ := r
+    obtain ⟨rfl, rfl⟩ : scope = k.scope ∧ arg = k.arg := (C11.parseKey_sound st k scope full arg hpk).2
+    obtain ⟨stb, hb2, hcfgeq, _, _⟩ := bind_ok_of_parse st k v k.scope full k.arg hl hpk
+    have hst : st' = stb := by rw [hb2] at hb; exact (Except.ok.inj hb).symm
+    subst hst
+    rw [hcfgeq]
+    have hcfg : ∀ kv ∈ State.setParam st.config (k.scope, full) k.arg v,
+        kv = ((k.scope, full), AList.set k.arg v (st.config.params k.scope full)) ∨ kv ∈ st.config :=
+      fun kv h => mem_of_mem_set _ _ _ kv h
+    have hold : ∀ pv ∈ st.config.params k.scope full, ∃ d, ((k.scope, full), d) ∈ st.config ∧ pv ∈ d := by
+      intro pv hpv
+      unfold Store.params at hpv
+      cases hl2 : AList.lookup (k.scope, full) st.config with
+      | none => simp [hl2] at hpv
+      | some d =>
+        simp only [hl2, Option.getD_some] at hpv
+        exact ⟨d, mem_of_lookup _ _ _ hl2, hpv⟩
+    have hrc : ∀ w, Readable st w → Readable st' w := fun w h => readable_congr hreg.symm hcon.symm w h
+    refine ⟨?_, ?_, ?_⟩
+    · intro kv hkv hm
+      rcases hcfg kv hkv with rfl | hin
+      · exact hsc
+      · exact ht.macroNamed kv hin hm
+    · intro kv hkv pv hpv
+      rcases hcfg kv hkv with rfl | hin
+      · rcases mem_of_mem_set _ _ _ pv hpv with rfl | hpold
+        · exact hk
+        · obtain ⟨d, hd, hpd⟩ := hold pv hpold
+          exact ht.paramNamed _ hd pv hpd
+      · exact ht.paramNamed kv hin pv hpv
+    · intro kv hkv pv hpv hrep
+      apply hrc
+      rcases hcfg kv hkv with rfl | hin
+      · rcases mem_of_mem_set _ _ _ pv hpv with rfl | hpold
+        · exact hv hrep
+        · obtain ⟨d, hd, hpd⟩ := hold pv hpold
+          exact ht.readable _ hd pv hpd hrep
+      · exact ht.readable kv hin pv hpv hrep
+
+theorem textOK_reachable (L : List (Key × Val)) : ∀ (st : State), TextOK st st.config →
+    (∀ kv ∈ L, BindOK st kv.1 kv.2) → TextOK (bindMany st L) (bindMany st L).config := by
+  induction L with
+  | nil => intro st h _; exact h
+  | cons kv rest ih =>
+    intro st ht hall
+    obtain ⟨k, v⟩ := kv
+    simp only [bindMany]
+    cases hb : st.bind k v with
+    | error e => exact ih st ht (fun kv' h' => hall kv' (List.mem_cons_of_mem _ h'))
+    | ok st1 =>
+      obtain ⟨h1, h2, h3⟩ := hall (k, v) List.mem_cons_self
+      have ht1 := textOK_bind st st1 ht k v hb h1 h2 h3
+      have hreg := (bind_registry_eq st st1 k v none hb).1
+      have hcon := (bind_registry_eq st st1 k v none hb).2
+      apply ih st1 ht1
+      intro kv' h'
+      obtain ⟨a1, a2, a3⟩ := hall kv' (List.mem_cons_of_mem _ h')
+      exact ⟨a1, a2, fun hr => readable_congr hreg.symm hcon.symm _ (a3 hr)⟩
+
+/-- **Round trip at statement level for every configuration reachable by binding**: start from an unlocked state with
+    an empty store over a well-formed registry, make any sequence of bind attempts whose parameters and scopes are
+    named and whose printable values name registered configurables (and no macro like a constant), print, and parse the
+    printed statements into the cleared configuration: nothing fails, and every parameter holds what it held if that
+    has a literal form, and nothing otherwise. -/
 theorem parse_roundtrip_reachable (st0 : State) (hr : RegOK st0) (hl : st0.locked = false) (h0 : st0.config = [])
-    (L : List (Key × Val)) (ht : TextOK (bindMany st0 L) (bindMany st0 L).config) :
+    (L : List (Key × Val)) (hL : ∀ kv ∈ L, BindOK st0 kv.1 kv.2) :
     let st := bindMany st0 L
     let out := applyStmts { st with config := [], prov := [] } none .no (docStmts st st.config)
     out.failure = none ∧
     ∀ key p, getP out.st.config key p = (getP st.config key p).filter (fun v => v.representable) := by
   obtain ⟨hok, hreg, hlk⟩ := storeOK_reachable L st0 hr (h0 ▸ storeOK_empty st0 hr)
+  have ht := textOK_reachable L st0 (h0 ▸ textOK_empty st0) hL
   exact parse_roundtrip (bindMany st0 L) ((regOK_congr hreg.symm hr).inv) (hlk.trans hl) hok ht
 
-/-! Non-vacuity: the demo store of `C06d` (two macros, one of them without literal form). -/
-theorem demo_config : (bindMany initState demoBinds).config =
-    [((["m"], State.macroSel), [("value", .int 3)]), ((["n"], State.macroSel), [("value", .obj 7)])] := by rfl
-
-theorem demo_textOK : TextOK (bindMany initState demoBinds) (bindMany initState demoBinds).config := by
-  rw [demo_config]
-  refine ⟨?_, ?_, ?_⟩
-  · intro kv h _
-    simp only [List.mem_cons, List.mem_nil_iff, or_false] at h
-    rcases h with rfl | rfl <;> simp
-  · intro kv h pv hp
-    simp only [List.mem_cons, List.mem_nil_iff, or_false] at h
-    rcases h with rfl | rfl <;> (simp only [List.mem_cons, List.mem_nil_iff, or_false] at hp; subst hp; simp)
-  · intro kv h pv hp hrep
-    simp only [List.mem_cons, List.mem_nil_iff, or_false] at h
-    rcases h with rfl | rfl <;> (simp only [List.mem_cons, List.mem_nil_iff, or_false] at hp; subst hp)
-    · simp [Readable]
-    · simp [Val.representable] at hrep
+/-! Non-vacuity: the demo binds of `C06d` (two macros, one of them without literal form). -/
+theorem demo_bindOK : ∀ kv ∈ demoBinds, BindOK initState kv.1 kv.2 := by
+  intro kv h
+  simp only [demoBinds, List.mem_cons, List.mem_nil_iff, or_false] at h
+  rcases h with rfl | rfl
+  · exact ⟨by decide, by decide, fun _ => by simp [Readable]⟩
+  · exact ⟨by decide, by decide, fun h => by simp [Val.representable] at h⟩
 
 example : (applyStmts { (bindMany initState demoBinds) with config := [], prov := [] } none .no
     (docStmts (bindMany initState demoBinds) (bindMany initState demoBinds).config)).failure = none :=
-  (parse_roundtrip_reachable initState regOK_init rfl rfl demoBinds demo_textOK).1
+  (parse_roundtrip_reachable initState regOK_init rfl rfl demoBinds demo_bindOK).1
 
 end Gin.C06
